@@ -477,6 +477,7 @@ class _OneofRun:
 
 
 class OneofSim(Simulator):
+    crash_rule = "C07.O1"
     name = "objsim-oneof"
     property_id = "C07"
     level = "exploration"
@@ -513,3 +514,373 @@ class OneofSim(Simulator):
 
     def execute(self, tape, trace, stats):
         return _OneofRun(tape, trace, stats).go()
+
+
+# =================================================================================================
+# C14 — observers are pure; copy, deepcopy and pickle are faithful and independent
+# =================================================================================================
+
+import hashlib
+import random
+
+from .schemas import Containers, Scalars
+from .simfile import WHandle
+from .tape import Tape
+from .valgen import Gen
+
+RULES_C14 = {
+    "C14.Q1": "read-only operations never change what a message subsequently encodes to, compares equal to or reports as present",
+    "C14.Q2": "copy, deepcopy and a pickle round trip each yield a message equal to the original that encodes to identical "
+              "bytes (unknown fields, oneof selection and nested-message presence included)",
+    "C14.Q3": "mutating a deep copy or an unpickled copy never affects the original",
+}
+
+C14_CLASSES = [Sink, Presence, Containers, Oneofs, Node, Scalars, Leaf]
+
+
+def _msg_field(fi) -> bool:
+    return (fi.proto_type == "message" and not fi.wraps and isinstance(fi.py_cls, type)
+            and issubclass(fi.py_cls, betterproto.Message) and not fi.repeated and not fi.is_map)
+
+
+def presence_report(m, cls, depth: int = 0) -> list:
+    """Only what has presence semantics in proto3: is_set of optional fields, which_one_of of each group,
+    serialized_on_wire of each PLAIN (non-optional, non-oneof) sub-message field - recursively."""
+    out = []
+    ci = class_info(cls)
+    for g in sorted(ci.groups):
+        name, v = betterproto.which_one_of(m, g)
+        out.append(("oneof", g, name))
+        if isinstance(v, betterproto.Message) and depth < 3:
+            out.append(presence_report(v, type(v), depth + 1))
+    for fi in ci.fields:
+        if fi.optional:
+            out.append(("is_set", fi.name, m.is_set(fi.name)))
+            if _msg_field(fi) and depth < 3:
+                v = getattr(m, fi.name)
+                if v is not None:
+                    out.append(presence_report(v, fi.py_cls, depth + 1))
+        elif _msg_field(fi) and not fi.group:
+            sub = getattr(m, fi.name)
+            out.append(("on_wire", fi.name, betterproto.serialized_on_wire(sub)))
+            if depth < 3:
+                out.append(presence_report(sub, fi.py_cls, depth + 1))
+    return out
+
+
+def build_message(tape):
+    """The construction recipe.  Run twice on the same decisions it yields two independent, equal objects."""
+    cls = tape.choice(C14_CLASSES, "cls")
+    how = tape.draw(4, "build-how")
+    g = Gen(tape, unlisted_enums=(how != 2))
+    ci = class_info(cls)
+    if how == 0:
+        return cls, g.message(cls), "constructed"
+    if how == 1:
+        src = g.message(cls)
+        data = bytes(src)
+        for _ in range(tape.draw(4, "n-extra")):
+            k = tape.draw(3, "extra-kind")
+            if k == 0:
+                data += tape.choice(UNKNOWN, "extra-unknown")
+            elif k == 1:
+                subs = [fi for fi in ci.fields if _msg_field(fi)]
+                if subs:
+                    data += wire.f_len(tape.choice(subs, "extra-empty-sub").number, b"")   # empty but present
+            else:
+                data = tape.choice(UNKNOWN, "extra-unknown-front") + data
+        return cls, cls().parse(data), "decoded"
+    if how == 2:
+        src = g.message(cls)
+        d = src.to_dict(include_default_values=bool(tape.draw(2, "dict-defaults")))
+        if tape.draw(2, "dict-form"):
+            return cls, cls.from_dict(d), "from_dict(class)"
+        return cls, cls().from_dict(d), "from_dict(instance)"
+    m = g.message(cls)
+    for _ in range(1 + tape.draw(3, "n-assign")):
+        fi = tape.choice(ci.fields, "assign-field")
+        setattr(m, fi.name, g.field_value(fi, 1))
+    return cls, m, "constructed+assigned"
+
+
+class _ObserverRun:
+    def __init__(self, tape, trace, stats):
+        self.tape, self.trace, self.stats = tape, trace, stats
+        self.recursed: Optional[str] = None     # first observer that died of unbounded recursion
+
+    def _state(self, x, cls):
+        b = bytes(x)
+        return b, presence_report(x, cls)
+
+    def observe(self, m, cls, k: int) -> str:
+        t = self.tape
+        ci = class_info(cls)
+        try:
+            if k == 0:
+                fi = t.choice(ci.fields, "read-field") if ci.fields else None
+                if fi is None:
+                    return "read(-)"
+                try:
+                    v = getattr(m, fi.name)
+                except AttributeError:
+                    return f"read {fi.name} -> AttributeError"
+                if isinstance(v, betterproto.Message):
+                    sub = class_info(type(v)).fields
+                    if sub:
+                        f2 = t.choice(sub, "read-sub")
+                        try:
+                            getattr(v, f2.name)
+                        except AttributeError:
+                            pass
+                        self.stats["probe:read-lazily-defaulted-nested-message"] += 1
+                        return f"read {fi.name}.{f2.name}"
+                return f"read {fi.name}"
+            if k == 1:
+                bytes(m)
+                return "bytes"
+            if k == 2:
+                len(m)
+                return "len"
+            if k == 3:
+                m == m  # noqa: B015
+                m == cls()  # noqa: B015
+                return "=="
+            if k == 4:
+                bool(m)
+                return "bool"
+            if k == 5:
+                repr(m)
+                return "repr"
+            if k in (6, 7, 8):
+                casing = (betterproto.Casing.CAMEL, betterproto.Casing.SNAKE)[t.draw(2, "casing")]
+                inc = bool(t.draw(2, "include-defaults"))
+                if k == 6:
+                    m.to_dict(casing=casing, include_default_values=inc)
+                    return f"to_dict({casing.name},{inc})"
+                if k == 7:
+                    m.to_json(casing=casing, include_default_values=inc)
+                    return f"to_json({casing.name},{inc})"
+                self.stats["probe:to_pydict-called"] += 1
+                m.to_pydict(casing=casing, include_default_values=inc)
+                return f"to_pydict({casing.name},{inc})"
+            if k == 9:
+                fi = t.choice(ci.fields, "is_set-field") if ci.fields else None
+                if fi:
+                    m.is_set(fi.name)
+                return "is_set"
+            if k == 10:
+                for g in ci.groups:
+                    betterproto.which_one_of(m, g)
+                return "which_one_of"
+            if k == 11:
+                betterproto.serialized_on_wire(m)
+                return "serialized_on_wire"
+            if k == 12:
+                f = SimFile()
+                w = f.writer(fail_at_call=t.draw(5, "dump-fail-at"), partial=t.draw(3, "dump-partial"))
+                try:
+                    m.dump(w, bool(t.draw(2, "dump-delimited")) and betterproto.SIZE_DELIMITED)
+                    return "dump(ok)"
+                except OSError:
+                    self.stats["fault:dump-interrupted-by-enospc"] += 1
+                    return "dump(interrupted by ENOSPC)"
+            if k == 13:
+                m.dump(io.BytesIO(), betterproto.SIZE_DELIMITED)
+                return "dump(delimited)"
+        except Exception as e:  # noqa: BLE001
+            self.stats["observer-raised:" + type(e).__name__] += 1
+            name = ("read", "bytes", "len", "==", "bool", "repr", "to_dict", "to_json", "to_pydict", "is_set",
+                    "which_one_of", "serialized_on_wire", "dump", "dump")[k]
+            if isinstance(e, RecursionError) and self.recursed is None:
+                self.recursed = name
+            return f"{name} raised {type(e).__name__}"
+        return f"observer#{k}"
+
+    def mutate(self, c, cls) -> str:
+        """A burst of mutations applied to a deep / unpickled copy."""
+        t = self.tape
+        ci = class_info(cls)
+        g = Gen(t)
+        done = []
+        for _ in range(1 + t.draw(4, "n-mut")):
+            if not ci.fields:
+                break
+            fi = t.choice(ci.fields, "mut-field")
+            try:
+                cur = getattr(c, fi.name)
+            except AttributeError:
+                cur = AttributeError
+            try:
+                if fi.is_map and isinstance(cur, dict):
+                    kt, vt = fi.map_types
+                    if cur and t.draw(2, "map-mut-value") and vt == "message":
+                        key = sorted(cur, key=repr)[0]
+                        sub = class_info(fi.map_value_cls).fields
+                        setattr(cur[key], sub[0].name, g.single(sub[0], 2))
+                        done.append(f"{fi.name}[..].{sub[0].name}=…")
+                        self.stats["probe:mutated-message-inside-map-of-copy"] += 1
+                    else:
+                        key = sorted(cur, key=repr)[0] if (cur and t.draw(2, "map-overwrite")) else g.scalar(kt, in_container=True, nonempty_str=True)
+                        cur[key] = g.message(fi.map_value_cls, 2) if vt == "message" else g.scalar(vt, fi.map_value_cls, in_container=True)
+                        done.append(f"{fi.name}[k]=…")
+                elif fi.repeated and isinstance(cur, list):
+                    if cur and isinstance(cur[0], betterproto.Message) and t.draw(2, "list-mut-elem"):
+                        sub = class_info(type(cur[0])).fields
+                        setattr(cur[0], sub[0].name, g.single(sub[0], 2))
+                        done.append(f"{fi.name}[0].{sub[0].name}=…")
+                        self.stats["probe:mutated-message-inside-list-of-copy"] += 1
+                    else:
+                        cur.append(g.single(fi, 2, in_container=True))
+                        done.append(f"{fi.name}.append")
+                elif isinstance(cur, betterproto.Message) and t.draw(2, "nested-mut"):
+                    sub = class_info(type(cur)).fields
+                    if sub:
+                        f2 = t.choice(sub, "nested-field")
+                        setattr(cur, f2.name, g.field_value(f2, 2))
+                        done.append(f"{fi.name}.{f2.name}=…")
+                        self.stats["probe:mutated-nested-message-of-copy"] += 1
+                else:
+                    setattr(c, fi.name, g.field_value(fi, 1))
+                    done.append(f"{fi.name}=…")
+            except Exception as e:  # noqa: BLE001
+                done.append(f"{fi.name}: {type(e).__name__}")
+        return "; ".join(done)
+
+    def go(self):
+        tape, trace, stats = self.tape, self.trace, self.stats
+        start = len(tape.log)
+        try:
+            cls, m, how = build_message(tape)
+        except Exception as e:  # noqa: BLE001
+            stats["skipped:build-raised-" + type(e).__name__] += 1
+            trace.append(f"skip: building the message raised {type(e).__name__}: {e}")
+            return False, 0, 0.0
+        recipe = tape.log[start:]
+        _, twin, _ = build_message(Tape.replay(recipe))
+        trace.append(f"{cls.__name__} {how}: {short(twin, 200)}")
+        steps = 0
+        # ---- observers on m; twin is never touched until the end
+        n_obs = 1 + tape.draw(10, "n-obs")
+        obs_log = []
+        for _ in range(n_obs):
+            k = tape.weighted([4, 2, 1, 2, 1, 2, 3, 2, 3, 1, 1, 1, 2, 1], "observer")
+            obs_log.append(self.observe(m, cls, k))
+            steps += 1
+        trace.append("observers: " + ", ".join(obs_log))
+        self._q1(m, twin, cls, "C14.Q1", f"after observers [{', '.join(obs_log)}]")
+        # ---- copies, in drawn order, possibly chained
+        src = m
+        copies = []
+        for _ in range(1 + tape.draw(3, "n-copies")):
+            kind = tape.draw(3, "copy-kind")
+            name = ("copy.copy", "copy.deepcopy", "pickle round trip")[kind]
+            base = src if not (copies and tape.draw(2, "chain")) else copies[-1][1]
+            try:
+                if kind == 0:
+                    c = copy.copy(base)
+                elif kind == 1:
+                    c = copy.deepcopy(base)
+                else:
+                    c = pickle.loads(pickle.dumps(base))
+            except Exception as e:  # noqa: BLE001
+                sig = f"{name.split()[0]}-raised-{type(e).__name__}"
+                if isinstance(e, RecursionError) and self.recursed:
+                    sig = f"unbounded-recursion-after:{self.recursed}"
+                raise Violation("C14.Q2" if not self.recursed else "C14.Q1", sig,
+                                f"{name} of {short(twin)} raised {type(e).__name__}: {e}")
+            steps += 1
+            stats[f"fault:restart-{name.replace(' ', '-')}"] += 1
+            self._q2(c, m, cls, name)
+            copies.append((kind, c, name))
+        trace.append("copies: " + ", ".join(n for _, _, n in copies))
+        # the copies must not have disturbed the original either
+        self._q1(m, twin, cls, "C14.Q1", "after copying")
+        # ---- mutate deep / unpickled copies; the original must not notice
+        for kind, c, name in copies:
+            if kind == 0:
+                continue          # nothing is demanded of a shallow copy's independence
+            what = self.mutate(c, cls)
+            steps += 1
+            trace.append(f"mutated {name}: {what}")
+            self._q1(m, twin, cls, "C14.Q3", f"after mutating a {name} ({what})")
+        return True, steps, float(steps)
+
+    def _q1(self, m, twin, cls, rule: str, when: str):
+        try:
+            bm = bytes(m)
+        except Exception as e:  # noqa: BLE001
+            sig = f"bytes-raises-{type(e).__name__}"
+            if isinstance(e, RecursionError) and self.recursed:
+                sig = f"unbounded-recursion-after:{self.recursed}"
+            raise Violation(rule, sig,
+                            f"{when}: bytes(original) now raises {type(e).__name__}: {e}; untouched twin: {short(twin)}")
+        bt = bytes(twin)
+        if bm != bt:
+            raise Violation(rule, "encoding-changed",
+                            f"{when}: the original now encodes to {bm.hex()[:120]} but an untouched twin built by the same "
+                            f"recipe encodes to {bt.hex()[:120]} ({short(twin, 120)})")
+        try:
+            eq = (m == twin)
+        except Exception as e:  # noqa: BLE001
+            raise Violation(rule, f"eq-raises-{type(e).__name__}", f"{when}: {e}")
+        if not eq:
+            raise Violation(rule, "equality-changed", f"{when}: original != untouched twin: {short(m, 140)} vs {short(twin, 140)}")
+        pm, pt = presence_report(m, cls), presence_report(twin, cls)
+        if pm != pt:
+            raise Violation(rule, "presence-changed", f"{when}: presence report {pm} vs untouched twin {pt}")
+
+    def _q2(self, c, m, cls, name: str):
+        if type(c) is not cls:
+            raise Violation("C14.Q2", "wrong-type", f"{name} returned {type(c).__name__}")
+        try:
+            bc, bm = bytes(c), bytes(m)
+        except Exception as e:  # noqa: BLE001
+            raise Violation("C14.Q2", f"bytes-raises-{type(e).__name__}", f"{name}: {e}")
+        if bc != bm:
+            raise Violation("C14.Q2", f"bytes-differ:{name.split()[0]}",
+                            f"{name}: copy encodes to {bc.hex()[:120]}, original to {bm.hex()[:120]} ({short(m, 140)})")
+        if not (c == m):
+            raise Violation("C14.Q2", f"not-equal:{name.split()[0]}", f"{name}: {short(c, 140)} != {short(m, 140)}")
+        pc, pm = presence_report(c, cls), presence_report(m, cls)
+        if pc != pm:
+            raise Violation("C14.Q2", f"presence-differs:{name.split()[0]}", f"{name}: {pc} vs original {pm}")
+
+
+class ObserverSim(Simulator):
+    crash_rule = "C14.Q1"
+    name = "objsim-observers"
+    property_id = "C14"
+    recursion_headroom = 260
+    level = "exploration"
+    rules = RULES_C14
+    generation_rule = ("Each history builds a message by a tape-drawn recipe (constructed; decoded from bytes incl. unknown fields "
+                       "and empty-but-present sub-messages; from_dict class/instance form; constructed then assigned) and an "
+                       "untouched TWIN by replaying the same decisions; applies 1-10 observers to the original (attribute reads "
+                       "incl. lazily defaulted nested messages and unselected oneof members, bytes, len, ==, bool, repr, to_dict, "
+                       "to_json, to_pydict in both casings and include_default_values, is_set, which_one_of, serialized_on_wire, "
+                       "dump, dump interrupted by ENOSPC at the k-th write); then 1-3 copies (copy, deepcopy, pickle; possibly "
+                       "chained); then mutation bursts on deep / unpickled copies (scalars, appends, nested fields, map entries, "
+                       "messages inside maps and lists).")
+    nontrivial_rule = "the recipe produced a message (always, unless building it raised)."
+    sim_time_unit = "operations"
+    components_real = ["betterproto Message observers, __copy__, __deepcopy__, __reduce__/__getstate__/__setstate__, to_pydict"]
+    components_stub = ["stream handed to dump() (ENOSPC injection)"]
+    assumptions = ["presence report is limited to what has presence semantics in proto3 (optional is_set, oneof selection, "
+                   "serialized_on_wire of plain sub-message fields)", "an observer raising is recorded, not judged",
+                   "nothing is demanded of a shallow copy's independence", "single actor: no interleaving to explore"]
+    tiers = {
+        "quick": dict(runs=20000, chunk=250, wall_cap=300, det_sample=200),
+        "thorough": dict(runs=2000000, chunk=1000, wall_cap=1500, det_sample=3000),
+    }
+    expected_probes = ["probe:read-lazily-defaulted-nested-message", "probe:to_pydict-called",
+                       "fault:dump-interrupted-by-enospc", "probe:mutated-message-inside-map-of-copy",
+                       "probe:mutated-message-inside-list-of-copy", "probe:mutated-nested-message-of-copy"]
+
+    def prepare(self, tier):
+        schemas.warm()
+
+    def adopt(self, state):
+        schemas.warm()
+
+    def execute(self, tape, trace, stats):
+        return _ObserverRun(tape, trace, stats).go()
